@@ -49,7 +49,9 @@ def class_omit(ctx, K):
             lists = []
             if isinstance(n, ast.keyword) and n.arg == "omit_list":
                 lists.append(n.value)
-            if isinstance(n, ast.Assign) and any(isinstance(t, ast.Name) and t.id == "omit_list" for t in n.targets):
+            # a local holding the list that is later passed as omit_list=<local> (whatever the local is called)
+            passed = {unparse(k.value) for k in ast.walk(fn.node) if isinstance(k, ast.keyword) and k.arg == "omit_list" and isinstance(k.value, ast.Name)}
+            if isinstance(n, ast.Assign) and any(isinstance(t, ast.Name) and t.id in passed for t in n.targets):
                 lists.append(n.value)
             for v in lists:
                 if isinstance(v, ast.Name):
@@ -178,7 +180,10 @@ def rule_shape(ctx) -> RuleResult:
                                  "editing it through the copy rewrites the source's stored data")
     # (b) property-group remapping order
     cpg = p.func("Workspace.copy_property_groups")
-    comps = [a for a in ast.walk(cpg.node) if isinstance(a, ast.Assign) and unparse(a.targets[0]) == "properties" and isinstance(a.value, ast.ListComp)]
+    # the remapping: the list comprehension whose elements are looked up in the uid map (the function's last parameter)
+    dmap = cpg.params[-1]
+    comps = [a for a in ast.walk(cpg.node) if isinstance(a, ast.Assign) and isinstance(a.value, ast.ListComp)
+             and isinstance(a.value.elt, ast.Subscript) and unparse(a.value.elt.value) == dmap]
     if not comps:
         raise AnalysisError("Workspace.copy_property_groups: remapping comprehension not found")
     for a in comps:
